@@ -74,9 +74,13 @@ def setup_tokens():
     k = KEYS["hs"]
     for n in (9000, 20000):   # tokens beyond a stdio buffer
         rc, t = helper(["token", k["src"], "HS256", json.dumps({"big": "x" * n})]); LONG_GOOD.append(t)
-    for n in range(6060, 6078):   # and with a total length right at BUFSIZ (8192)
-        rc, t = helper(["token", k["src"], "HS256", json.dumps({"b": "x" * n})])
-        if len(t) in (8191, 8192, 8193): LONG_GOOD.append(t)
+    want = {8188, 8189, 8190, 8191, 8192, 8193, 8194, 16381, 16382, 16383, 16384, 16385}   # total lengths right at BUFSIZ (8192) and 2*BUFSIZ, +-2
+    for kid in ("", "k", "kk"):   # three header lengths make every total length reachable (unpadded base64url never has length 1 mod 4)
+        for n in list(range(6040, 6080)) + list(range(12180, 12222)):
+            if not want: break
+            rc, t = helper(["token", k["src"], "HS256", json.dumps({"b": "x" * n})] + ([kid] if kid else []))
+            if len(t) in want: want.discard(len(t)); LONG_GOOD.append(t)
+    stats["extra"]["long_token_lengths"] = sorted(len(t) for t in LONG_GOOD)
     for i in range(40):
         rc, t = helper(["token", k["src"], "HS256", json.dumps({"n": i, "sub": "c20"})]); GOOD.append(t)
     for i in range(40):
@@ -99,8 +103,11 @@ def run_verify_case(case):
     for i in range(n): toks.append(BAD[(i + seedv) % len(BAD)] if i in bad_positions else GOOD[(i + seedv) % len(GOOD)])
     nlong = 0
     if case.get("long") and n:   # some of the good tokens are long ones (still valid)
-        for j, i in enumerate([i for i in range(n) if i not in bad_positions][: 1 + seedv % 3]):
-            toks[i] = LONG_GOOD[(seedv + j) % len(LONG_GOOD)]; nlong += 1
+        goodpos = [i for i in range(n) if i not in bad_positions]
+        # prefer good positions that are directly followed by a failing token: a reader that glues lines together would skip it
+        goodpos.sort(key=lambda i: 0 if (i + 1) in bad_positions else 1)
+        for j, i in enumerate(goodpos[: 1 + seedv % 4]):
+            toks[i] = LONG_GOOD[(seedv // 4 + j) % len(LONG_GOOD)]; nlong += 1
     args = ["-k", KEYS["hs"]["jwk_priv_alg"]] + (["-q"] if quiet else [])
     if how == "args": rc, out, err, san = tool("jwt-verify", args + toks)
     else: rc, out, err, san = tool("jwt-verify", args + ["-"], stdin=("\n".join(toks) + ("\n" if toks and not (seedv & 1) else "")).encode())   # last line with or without newline
@@ -260,6 +267,14 @@ def main():
     if not A.replay: setup_pool()
     if A.replay:
         r = json.load(open(A.replay)); kind = r.get("kind"); case = r.get("case")
+        if kind == "longlist":
+            bad = 0
+            for t in LONG_GOOD:
+                if len(t) != case["length"]: continue
+                for tail in ([], [BAD[0]], [GOOD[0], BAD[1]]):
+                    rc, out, err, san = tool("jwt-verify", ["-q", "-k", KEYS["hs"]["jwk_priv_alg"], "-"], stdin=("\n".join([t] + tail) + "\n").encode())
+                    if san or (rc == 0) != (not any(x in BAD for x in tail)): bad = 1
+            return 3 if bad else 0
         if kind not in FNS or case is None: return 2
         if "keys" in case: case["keys"] = [tuple(x) for x in case["keys"]]
         try: FNS[kind](case)
@@ -276,6 +291,15 @@ def main():
                     try: guarded(run_verify_case, case)
                     except AssertionError:
                         f = last.get("f"); stats["violations"].append({"signature": f.sig, "what": f.what, "replay": {"kind": "verify", "case": f.case}})
+    for li in range(len(LONG_GOOD)):
+        if li % A.nworkers != A.worker: continue
+        for tail in ([], [BAD[0]], [GOOD[0], BAD[1]]):
+            toks = [LONG_GOOD[li]] + tail
+            rc, out, err, san = tool("jwt-verify", ["-q", "-k", KEYS["hs"]["jwk_priv_alg"], "-"], stdin=("\n".join(toks) + "\n").encode())
+            stats["evaluations"] += 1; cls("long-token-boundary-lists"); nontrivial(("longlist", len(LONG_GOOD[li]), len(tail)))
+            nb = sum(1 for t in tail if t in BAD)
+            if san or (rc == 0) != (nb == 0):
+                stats["violations"].append({"signature": "C20:jwt-verify:exit-status:" + ("zero-although-tokens-failed" if rc == 0 else "nonzero-although-all-verified") + ":long-token-on-stdin", "what": f"stdin list [long good token of {len(LONG_GOOD[li])} chars] + {len(tail)} more ({nb} failing): exit {rc}", "replay": {"kind": "longlist", "case": {"length": len(LONG_GOOD[li]), "tail": len(tail)}}})
     if A.worker in (2, 3):
         case = {"n": 3, "nbad": 0, "how": "stdin" if A.worker == 2 else "args", "quiet": True, "mix": A.seed, "long": True}
         try: guarded(run_verify_case, case)
